@@ -11,7 +11,9 @@ import (
 	"strings"
 	"time"
 
+	wio "github.com/whatap/golib/io"
 	"github.com/whatap/golib/lang/pack"
+	"github.com/whatap/golib/lang/value"
 	wnet "github.com/whatap/golib/net"
 	"github.com/whatap/golib/net/oneway"
 	whash "github.com/whatap/golib/util/hash"
@@ -46,6 +48,7 @@ type c06Send struct {
 	Size    int    `json:"size"`
 	License string `json:"license"`
 	Pcode   int64  `json:"pcode"`
+	Pad     int    `json:"pad"`
 	Flush   bool   `json:"flush"`
 	Call    int64  `json:"call"`
 	Return  int64  `json:"return"`
@@ -325,7 +328,7 @@ func c06Body(faulty bool) func(rc *RunCtx) {
 				o = append(o, wnet.WithLicense(it.license))
 			}
 			s := &c06Send{ID: it.id, Task: task, Kind: []string{"text", "logsink", "tagcount"}[it.kind], Size: len(body), License: lic,
-				Pcode: it.pcode, Flush: it.flush, Phase: phase}
+				Pcode: it.pcode, Flush: it.flush, Phase: phase, Pad: it.size}
 			s.frame = c06Frame(body, it.pcode, lic)
 			if len(s.frame) > 2*1024*1024 {
 				simrt.Probe("frame_larger_than_buffer")
@@ -554,6 +557,35 @@ func c06After(rc *RunCtx, res *simrt.Result) {
 					}()
 					q := pack.ToPack(fr[22:])
 					ok, on := c06Kind(s.ID)
+					// ... and its content, by kind, against a pack built afresh from the same recipe
+					want := c06MakePack(s.ID, map[string]int{"text": 0, "logsink": 1, "tagcount": 2}[s.Kind], s.Pad, s.Pcode)
+					mv := func(m *value.MapValue) string {
+						return string(value.WriteValue(wio.NewDataOutputX(), m).ToByteArray())
+					}
+					bad := ""
+					switch w := want.(type) {
+					case *pack.TextPack:
+						g, ok := q.(*pack.TextPack)
+						recs := func(p *pack.TextPack) string {
+							return fmt.Sprintf("%v", reflect.ValueOf(p).Elem().FieldByName("records"))
+						}
+						if !ok || recs(g) != recs(w) {
+							bad = "text records differ"
+						}
+					case *pack.LogSinkPack:
+						g, ok := q.(*pack.LogSinkPack)
+						if !ok || g.Category != w.Category || g.Content != w.Content || g.Line != w.Line || mv(g.Tags) != mv(w.Tags) || mv(g.Fields) != mv(w.Fields) {
+							bad = "log-sink fields differ"
+						}
+					case *pack.TagCountPack:
+						g, ok := q.(*pack.TagCountPack)
+						if !ok || g.Category != w.Category || mv(g.Tags) != mv(w.Tags) || mv(g.Data) != mv(w.Data) {
+							bad = "tag-count fields differ"
+						}
+					}
+					if bad != "" {
+						viol("O2-content", fmt.Sprintf("conn#%d: frame of pack id %d (%s) does not decode to the pack that was sent: %s", c.Ordinal, s.ID, s.Kind, bad))
+					}
 					fld := func(n string) int64 { return reflect.ValueOf(q).Elem().FieldByName(n).Int() }
 					if q == nil || fld("Pcode") != s.Pcode || fld("Oid") != int64(s.ID) || fld("Okind") != int64(ok) || fld("Onode") != int64(on) || fld("Time") != int64(s.ID) {
 						viol("O2-content", fmt.Sprintf("conn#%d: frame of pack id %d decodes to pcode=%d oid=%d okind=%d onode=%d time=%d, the pack sent had pcode=%d oid=%d okind=%d onode=%d time=%d", c.Ordinal, s.ID, fld("Pcode"), fld("Oid"), fld("Okind"), fld("Onode"), fld("Time"), s.Pcode, s.ID, ok, on, s.ID))
